@@ -120,12 +120,17 @@ fn child() {
     let mut shared: Option<Dispatch> = None;
     if let Some(r) = sc.get("reload") {
         let v0 = RFilter::of(&r["values"][0]);
-        if r["kind"] == "env" {
+        if r["kind"] == "env" || r["kind"] == "envplf" {
             // a second, idle collector that answers `sometimes` is alive as well (registered before the stack)
             let (c, _) = RecCollector::new(9, FilterRec { thr: 5, tgts: vec!["a".into(), "b".into()], kind: "lazy".into(), hint: None }, new_log());
             std::mem::forget(Dispatch::new(c));
             let (f, h) = tracing_subscriber::reload::Subscriber::new(v0.env());
-            shared = Some(Dispatch::new(tracing_subscriber::registry().with(f).with(RecLayer { log: log.clone() })));
+            // as the global filter layer below the recording layer, or (envplf) as that layer's per-layer filter
+            shared = Some(if r["kind"] == "envplf" {
+                Dispatch::new(tracing_subscriber::registry().with(RecLayer { log: log.clone() }.with_filter(f)))
+            } else {
+                Dispatch::new(tracing_subscriber::registry().with(f).with(RecLayer { log: log.clone() }))
+            });
             let h2 = h.clone();
             setter!(h, env);
             reload_handle = Some(Arc::new(Mutex::new(Box::new(move |v: &RFilter| h.reload(v.env()).is_ok()) as Box<dyn Fn(&RFilter) -> bool + Send>)));
